@@ -15,7 +15,7 @@
    no injectivity or collision-freeness anywhere. *)
 From Coq Require Import ZArith List String.
 From GSP Require Import Base.Prelude Value.Time Value.Model RDF.Model SMT.Model
-  Merklizer.Model Merklizer.Script Merklizer.Theory.
+  Merklizer.Model Merklizer.Script Merklizer.Theory Merklizer.SliceModel Merklizer.SliceTheory.
 Import ListNotations.
 Open Scope Z_scope.
 
@@ -162,3 +162,50 @@ Theorem C02_shared_nonmember :
      forall v, v < tp_q T -> t_verify T (mz_root T m') pr k v = Ok true).
 Proof. exact c02_shared_nonmember. Qed.
 Print Assumptions C02_shared_nonmember.
+
+(* ---- Path.Append / Path.Prepend do not alias (Merklizer/SliceModel.v: Go slices over a heap
+   of arrays; `valid h s`: slice s lies inside its array of heap h; `view h s`: what reading s
+   yields; p = the path's parts slice, xs = the caller's variadic argument slice) ----
+   For every element type, growth policy and heap: the result reads p ++ xs (resp. xs ++ p); EVERY
+   other valid slice of the heap — copies of the path, the caller's argument buffer, other paths —
+   reads the same afterwards; and the result lives in a new array (index = length of the old heap)
+   that no slice of the old heap refers to.  (Append of zero parts returns the path unchanged.) *)
+Theorem C02_path_append_does_not_alias :
+  forall (A : Type) (dflt : A) (slack : nat -> nat) (h : SliceModel.heap A) (p xs : SliceModel.slice),
+  SliceTheory.valid A h p ->
+  let r := SliceModel.append_fixed A dflt slack h p xs in
+  SliceModel.view A (fst r) (snd r) = SliceModel.view A h p ++ SliceModel.view A h xs /\
+  SliceTheory.valid A (fst r) (snd r) /\
+  (forall t, SliceTheory.valid A h t ->
+             SliceModel.view A (fst r) t = SliceModel.view A h t /\ SliceTheory.valid A (fst r) t) /\
+  (SliceModel.view A h xs <> [] -> SliceModel.s_arr (snd r) = List.length h).
+Proof. exact SliceTheory.append_fixed_spec. Qed.
+Print Assumptions C02_path_append_does_not_alias.
+
+Theorem C02_path_prepend_does_not_alias :
+  forall (A : Type) (dflt : A) (slack : nat -> nat) (h : SliceModel.heap A) (p xs : SliceModel.slice),
+  SliceTheory.valid A h p -> SliceTheory.valid A h xs ->
+  let r := SliceModel.prepend_fixed A dflt slack h p xs in
+  SliceModel.view A (fst r) (snd r) = SliceModel.view A h xs ++ SliceModel.view A h p /\
+  SliceTheory.valid A (fst r) (snd r) /\
+  (forall t, SliceTheory.valid A h t ->
+             SliceModel.view A (fst r) t = SliceModel.view A h t /\ SliceTheory.valid A (fst r) t) /\
+  SliceModel.s_arr (snd r) = List.length h.
+Proof. exact SliceTheory.prepend_fixed_spec. Qed.
+Print Assumptions C02_path_prepend_does_not_alias.
+
+(* the earlier versions (D35: append(p.parts, parts...); D36: append(parts, p.parts...)) violate
+   the frame property: concrete heaps on which another slice reads differently afterwards *)
+Theorem C02_path_append_prefix_refuted :
+  exists (h : SliceModel.heap nat) (p q xs : SliceModel.slice),
+    SliceTheory.valid nat h p /\ SliceTheory.valid nat h q /\ SliceTheory.valid nat h xs /\
+    SliceModel.view nat (fst (SliceModel.append_prefix nat 0%nat (fun _ => 0%nat) h p xs)) q <> SliceModel.view nat h q.
+Proof. exact SliceTheory.append_prefix_refuted. Qed.
+Print Assumptions C02_path_append_prefix_refuted.
+
+Theorem C02_path_prepend_prefix_refuted :
+  exists (h : SliceModel.heap nat) (p q xs : SliceModel.slice),
+    SliceTheory.valid nat h p /\ SliceTheory.valid nat h q /\ SliceTheory.valid nat h xs /\
+    SliceModel.view nat (fst (SliceModel.prepend_prefix nat 0%nat (fun _ => 0%nat) h p xs)) q <> SliceModel.view nat h q.
+Proof. exact SliceTheory.prepend_prefix_refuted. Qed.
+Print Assumptions C02_path_prepend_prefix_refuted.
